@@ -243,7 +243,7 @@ __CPROVER_requires(EDIT_EMPTY(edit))
 __CPROVER_requires(g_edit == edit && g_src == src->data && g_srcn == src->size && g_ncp == 0 && g_ndel == 0 && g_nnew == 0 && g_exact_set == 0)
 __CPROVER_assigns(*edit, g_rec)
 __CPROVER_ensures(__CPROVER_return_value == 0 || __CPROVER_return_value == 1)
-__CPROVER_ensures(EDIT_FLAGS01(edit) && EDIT_UNSET_ZERO(edit) && EDIT_COUNTS(edit) && EDIT_NAME_INSIDE(edit))
+__CPROVER_ensures(EDIT_FLAGS01(edit) && EDIT_UNSET_ZERO(edit) && EDIT_COUNTS(edit))
 /* nothing decoded from an empty record */
 __CPROVER_ensures(src->size == 0 ==> (__CPROVER_return_value == 1 && EDIT_EMPTY(edit)))
 ;
